@@ -21,6 +21,7 @@ var (
 func old[T any](x T) T        { return x }
 func implies(a, b bool) bool  { return !a || b }
 func iff(a, b bool) bool      { return a == b }
+func exists[T any](f func(T) bool) bool { return true }
 func same[T any](a, b T) bool { return true }
 func mapof[K comparable, V any](m map[K]V) bool { return true }
 func has[K comparable, V any](m map[K]V, k K) bool {
@@ -124,6 +125,104 @@ func specAccept(ncp *CAPool, c Certificate, now time.Time, fp string, cachedSign
 	}
 	return c.CheckSignature(ca.Certificate.PublicKey()) && specConstraintsOK(ca.Certificate, c)
 }
+
+// checkCAConstraints (used by verification, C01, and by signing, C04): a nil
+// result means the validity window lies inside the signer's, and — pointwise in
+// an arbitrary index j — every group is one of the signer's groups when the
+// signer lists any, every network (unsafe network) lies inside one of the
+// signer's networks (unsafe networks) when the signer lists any; a window
+// outside the signer's is always refused.
+//@ func specStrIn
+//@   opaque
+func specStrIn(s []string, v string) bool { return false }
+
+//@ func slices.Contains
+//@   trusted membership test of the standard library, a deterministic function of list and value
+//@   ensures result == specStrIn(s, v)
+//@   assigns nothing
+//@ func (Certificate).NotAfter
+//@   trusted accessor of an immutable certificate
+//@   ensures result == self.NotAfter()
+//@   assigns nothing
+//@ func (Certificate).NotBefore
+//@   trusted accessor of an immutable certificate
+//@   ensures result == self.NotBefore()
+//@   assigns nothing
+//@ func (Certificate).Networks
+//@   trusted accessor of an immutable certificate
+//@   ensures same(result, self.Networks())
+//@   assigns nothing
+//@ func (Certificate).UnsafeNetworks
+//@   trusted accessor of an immutable certificate
+//@   ensures same(result, self.UnsafeNetworks())
+//@   assigns nothing
+
+// =====================================================================
+// C04 — issuance never exceeds the signing CA
+// =====================================================================
+//
+// SignWith returns a certificate only if the key's curve is the certificate's,
+// a signer is given exactly when the certificate is not a CA (self-signing
+// only for CAs), the constraint check was made on exactly this certificate's
+// window, groups and networks against exactly this signer and succeeded, and
+// for P-256 the signature passed through p256.Normalize before it was set.
+//@ func github.com/slackhq/nebula/cert/p256.Normalize
+//@   trusted brings an ECDSA signature into low-S form (cert/p256)
+//@   effect normalized if result1 == nil
+//@   assigns nothing
+//@ func (beingSignedCertificate).fromTBSCertificate
+//@   trusted copies and validates the to-be-signed fields into the version's own representation
+//@   assigns nothing
+//@ func (beingSignedCertificate).marshalForSigning
+//@   trusted encodes the bytes to be signed
+//@   assigns nothing
+//@ func (beingSignedCertificate).setSignature
+//@   trusted stores the signature in the certificate being built
+//@   assigns nothing
+
+//@ func (*TBSCertificate).SignWith
+//@   props C04
+//@   ghost checked int = 0
+//@   ghost normalized int = 0
+//@   ghost j int
+//@   requires t != nil
+//@   callrequires checkCAConstraints same(arg0, signer) && arg1 == t.NotBefore && arg2 == t.NotAfter && same(arg3, t.Groups) && same(arg4, t.Networks) && same(arg5, t.UnsafeNetworks)
+//@   callrequires setSignature implies(curve == Curve_P256, normalized == 1)
+//@   ensures[curve]   implies(result1 == nil, curve == old(t.Curve))
+//@   ensures[ca]      implies(result1 == nil, (signer == nil) == old(t.IsCA))
+//@   ensures[checked] implies(result1 == nil && signer != nil, checked == 1)
+//@   ensures[none]    implies(result1 != nil, result0 == nil)
+
+//@ func checkCAConstraints
+//@   props C01 C04
+//@   ghost j int
+//@   effect checked if result == nil
+//@   requires signer != nil
+//@   ensures[window]  implies(result == nil, !notAfter.After(signer.NotAfter()) && !notBefore.Before(signer.NotBefore()))
+//@   ensures[refuse]  implies(notAfter.After(signer.NotAfter()) || notBefore.Before(signer.NotBefore()), result != nil)
+//@   ensures[groups]  implies(result == nil && len(signer.Groups()) > 0 && 0 <= j && j < len(groups), specStrIn(signer.Groups(), groups[j]))
+//@   ensures[nets]    implies(result == nil && len(signer.Networks()) > 0 && 0 <= j && j < len(networks), exists(func(m int) bool { return 0 <= m && m < len(signer.Networks()) && signer.Networks()[m].Contains(networks[j].Addr()) && signer.Networks()[m].Bits() <= networks[j].Bits() }))
+//@   ensures[unsafe]  implies(result == nil && len(signer.UnsafeNetworks()) > 0 && 0 <= j && j < len(unsafeNetworks), exists(func(m int) bool { return 0 <= m && m < len(signer.UnsafeNetworks()) && signer.UnsafeNetworks()[m].Contains(unsafeNetworks[j].Addr()) && signer.UnsafeNetworks()[m].Bits() <= unsafeNetworks[j].Bits() }))
+//@   assigns nothing
+//@   loop 1 invariant implies(0 <= j && j < rangeindex, specStrIn(signerGroups, groups[j]))
+//@   loop 2 invariant implies(0 <= j && j < rangeindex, exists(func(m int) bool { return 0 <= m && m < len(signingNetworks) && signingNetworks[m].Contains(networks[j].Addr()) && signingNetworks[m].Bits() <= networks[j].Bits() }))
+//@   loop 3 invariant !found
+//@   loop 4 invariant implies(0 <= j && j < rangeindex, exists(func(m int) bool { return 0 <= m && m < len(signingUnsafeNetworks) && signingUnsafeNetworks[m].Contains(unsafeNetworks[j].Addr()) && signingUnsafeNetworks[m].Bits() <= unsafeNetworks[j].Bits() }))
+//@   loop 5 invariant !found
+
+// Re-check equals full check: if the CA now registered under the certificate's
+// issuer is the one recorded at the full check (same fingerprint), and the
+// full check's signature and constraint tests held against that CA, then for
+// the same pool, time and fingerprint the cached rule and the full rule agree.
+//@ func verifLemmaRecheck
+//@   props C01
+//@   requires ncp != nil && c != nil && len(signer) > 0
+//@   requires[pool]     implies(c.Issuer() != "" && has(ncp.CAs, c.Issuer()), ncp.CAs[c.Issuer()] != nil && ncp.CAs[c.Issuer()].Certificate != nil)
+//@   requires[sameca]   implies(c.Issuer() != "" && has(ncp.CAs, c.Issuer()), ncp.CAs[c.Issuer()].Fingerprint == signer)
+//@   requires[accepted] implies(c.Issuer() != "" && has(ncp.CAs, c.Issuer()), c.CheckSignature(ncp.CAs[c.Issuer()].Certificate.PublicKey()) && specConstraintsOK(ncp.CAs[c.Issuer()].Certificate, c))
+//@   ensures specAccept(ncp, c, now, fp, signer) == specAccept(ncp, c, now, fp, "")
+//@   assigns nothing
+func verifLemmaRecheck(ncp *CAPool, c Certificate, now time.Time, fp, signer string) {}
 
 //@ func (*CAPool).IsBlocklisted
 //@   props C01
